@@ -89,9 +89,16 @@ pub struct GuardBuf<T: Copy> {
     len: usize,
     canary_ptr: *mut u8,
     canary_len: usize,
+    place: Placement,
+    pooled: bool,
 }
 
 pub const CANARY: u8 = 0xA5;
+const POOL_PAGES: usize = 4;
+
+thread_local! {
+    static POOL: std::cell::RefCell<Vec<(*mut u8, Placement)>> = const { std::cell::RefCell::new(Vec::new()) };
+}
 
 unsafe impl<T: Copy> Send for GuardBuf<T> {}
 
@@ -104,39 +111,55 @@ impl<T: Copy> GuardBuf<T> {
         let page = 4096usize;
         let bytes = len * std::mem::size_of::<T>();
         let min_canary = 256usize;
-        let data_pages = (bytes + min_canary).div_ceil(page).max(1);
+        let needed_pages = (bytes + min_canary).div_ceil(page).max(1);
+        // mappings are pooled per thread (mmap/mprotect are slow here); a pooled
+        // mapping has POOL_PAGES data pages and one PROT_NONE page at the
+        // requested side.
+        let pooled = needed_pages <= POOL_PAGES;
+        let data_pages = if pooled { POOL_PAGES } else { needed_pages };
         let map_len = (data_pages + 1) * page;
         unsafe {
-            let map = libc::mmap(
-                std::ptr::null_mut(),
-                map_len,
-                libc::PROT_READ | libc::PROT_WRITE,
-                libc::MAP_PRIVATE | libc::MAP_ANONYMOUS,
-                -1,
-                0,
-            );
-            if map == libc::MAP_FAILED {
-                vp_core::machinery_error("mmap failed for guard buffer");
-            }
-            let map = map as *mut u8;
-            std::ptr::write_bytes(map, CANARY, map_len);
-            let (guard, ptr, canary_ptr, canary_len) = match place {
+            let reuse = if pooled { POOL.with(|p| p.borrow_mut().iter().position(|(_, pl)| *pl == place).map(|i| p.borrow_mut().swap_remove(i).0)) } else { None };
+            let map = match reuse {
+                Some(m) => m,
+                None => {
+                    let map = libc::mmap(
+                        std::ptr::null_mut(),
+                        map_len,
+                        libc::PROT_READ | libc::PROT_WRITE,
+                        libc::MAP_PRIVATE | libc::MAP_ANONYMOUS,
+                        -1,
+                        0,
+                    );
+                    if map == libc::MAP_FAILED {
+                        vp_core::machinery_error("mmap failed for guard buffer");
+                    }
+                    let map = map as *mut u8;
+                    let guard = match place {
+                        Placement::EndGuard => map.add(data_pages * page),
+                        Placement::StartGuard => map,
+                    };
+                    if libc::mprotect(guard as *mut libc::c_void, page, libc::PROT_NONE) != 0 {
+                        vp_core::machinery_error("mprotect failed for guard page");
+                    }
+                    map
+                }
+            };
+            let canary_len = (data_pages * page - bytes).min(1024);
+            let (ptr, canary_ptr) = match place {
                 Placement::EndGuard => {
                     let guard = map.add(data_pages * page);
                     let ptr = guard.sub(bytes);
-                    let canary_len = (data_pages * page - bytes).min(page);
-                    (guard, ptr, ptr.sub(canary_len), canary_len)
+                    (ptr, ptr.sub(canary_len))
                 }
                 Placement::StartGuard => {
                     let ptr = map.add(page);
-                    let canary_len = (data_pages * page - bytes).min(page);
-                    (map, ptr, ptr.add(bytes), canary_len)
+                    (ptr, ptr.add(bytes))
                 }
             };
-            if libc::mprotect(guard as *mut libc::c_void, page, libc::PROT_NONE) != 0 {
-                vp_core::machinery_error("mprotect failed for guard page");
-            }
-            GuardBuf { map, map_len, ptr: ptr as *mut T, len, canary_ptr, canary_len }
+            std::ptr::write_bytes(canary_ptr, CANARY, canary_len);
+            std::ptr::write_bytes(ptr, 0xCD, bytes);
+            GuardBuf { map, map_len, ptr: ptr as *mut T, len, canary_ptr, canary_len, place, pooled }
         }
     }
 
@@ -170,6 +193,11 @@ impl<T: Copy> GuardBuf<T> {
 
 impl<T: Copy> Drop for GuardBuf<T> {
     fn drop(&mut self) {
+        if self.pooled {
+            let (m, pl) = (self.map, self.place);
+            POOL.with(|p| p.borrow_mut().push((m, pl)));
+            return;
+        }
         unsafe {
             libc::munmap(self.map as *mut libc::c_void, self.map_len);
         }
@@ -218,7 +246,7 @@ pub fn install_segv_reporter() {
     }
     unsafe {
         let mut sa: libc::sigaction = std::mem::zeroed();
-        sa.sa_sigaction = segv_handler as usize;
+        sa.sa_sigaction = segv_handler as *const () as usize;
         libc::sigemptyset(&mut sa.sa_mask);
         libc::sigaction(libc::SIGSEGV, &sa, std::ptr::null_mut());
         libc::sigaction(libc::SIGBUS, &sa, std::ptr::null_mut());
